@@ -18,25 +18,77 @@ namespace ScyllaVerif.Speculative
 
 /-! ### The error universe and the `can_be_ignored` classification -/
 
-/-- `DbError` variants (`error.rs:242-420`), payloads dropped. -/
+/-- `OperationType` (`error.rs:161-165`). -/
+inductive OpType
+  | read | write | other (code : Nat)
+  deriving DecidableEq, Repr, Inhabited
+
+/-- `DbError` variants with their payloads (`error.rs:242-420`).  Consistencies and write types are carried by
+name; no classification looks at any payload (every arm is `{ .. }`), which is a theorem, not a convention. -/
 inductive DbErr
+  | syntaxError | invalid
+  | alreadyExists (keyspace table : String)
+  | functionFailure (keyspace function : String) (argTypes : List String)
+  | authenticationError | unauthorized | configError
+  | unavailable (consistency : String) (required alive : Int)
+  | overloaded | isBootstrapping | truncateError
+  | readTimeout (consistency : String) (received required : Int) (dataPresent : Bool)
+  | writeTimeout (consistency : String) (received required : Int) (writeType : String)
+  | readFailure (consistency : String) (received required numfailures : Int) (dataPresent : Bool)
+  | writeFailure (consistency : String) (received required numfailures : Int) (writeType : String)
+  | unprepared (statementId : List UInt8)
+  | serverError | protocolError
+  | rateLimitReached (opType : OpType) (rejectedByCoordinator : Bool)
+  | other (code : Int)
+  deriving DecidableEq, Repr, Inhabited
+
+/-- The variant of a `DbError`, payload forgotten. -/
+inductive DbKind
   | syntaxError | invalid | alreadyExists | functionFailure | authenticationError | unauthorized
   | configError | unavailable | overloaded | isBootstrapping | truncateError | readTimeout
   | writeTimeout | readFailure | writeFailure | unprepared | serverError | protocolError
   | rateLimitReached | other
   deriving DecidableEq, Repr, Inhabited
 
-/-- `RequestAttemptError` variants (`errors.rs:955-1023`). -/
+def DbErr.kind : DbErr → DbKind
+  | .syntaxError => .syntaxError | .invalid => .invalid | .alreadyExists .. => .alreadyExists
+  | .functionFailure .. => .functionFailure | .authenticationError => .authenticationError
+  | .unauthorized => .unauthorized | .configError => .configError | .unavailable .. => .unavailable
+  | .overloaded => .overloaded | .isBootstrapping => .isBootstrapping | .truncateError => .truncateError
+  | .readTimeout .. => .readTimeout | .writeTimeout .. => .writeTimeout | .readFailure .. => .readFailure
+  | .writeFailure .. => .writeFailure | .unprepared .. => .unprepared | .serverError => .serverError
+  | .protocolError => .protocolError | .rateLimitReached .. => .rateLimitReached | .other .. => .other
+
+/-- `BrokenConnectionErrorKind` (`errors.rs:822-859`), the reasons a `BrokenConnectionError` wraps. -/
+inductive BrokenKind
+  | keepaliveTimeout | keepaliveRequestError | frameHeaderParseError (sub : String) | cqlEventHandlingError
+  | unexpectedStreamId (id : Int) | writeError (ioKind : String) | tooManyOrphanedStreamIds (n : Nat) | channelError
+  deriving DecidableEq, Repr, Inhabited
+
+/-- `RequestAttemptError` variants (`errors.rs:955-1023`); nested parse / serialisation errors by variant name. -/
 inductive AttemptErr
-  | serializationError | cqlRequestSerialization | unableToAllocStreamId | brokenConnectionError
-  | bodyExtensionsParseError | cqlResultParseError | cqlErrorParseError
-  | dbError (e : DbErr)
-  | unexpectedResponse | repreparedIdChanged | repreparedIdMissingInBatch | nonfinishedPagingState
+  | serializationError
+  | cqlRequestSerialization (sub : String)
+  | unableToAllocStreamId
+  | brokenConnectionError (kind : BrokenKind)
+  | bodyExtensionsParseError (sub : String)
+  | cqlResultParseError (sub : String)
+  | cqlErrorParseError (sub : String)
+  | dbError (e : DbErr) (msg : String)
+  | unexpectedResponse (kind : String)
+  | repreparedIdChanged | repreparedIdMissingInBatch | nonfinishedPagingState
+  deriving DecidableEq, Repr, Inhabited
+
+/-- `ConnectionPoolError` (`errors.rs:553-568`). -/
+inductive PoolErr
+  | broken | initializing | nodeDisabledByHostFilter
   deriving DecidableEq, Repr, Inhabited
 
 /-- `RequestError` variants (`errors.rs:907-931`). -/
 inductive ReqErr
-  | emptyPlan | connectionPoolError | requestTimeout
+  | emptyPlan
+  | connectionPoolError (e : PoolErr)
+  | requestTimeout (ms : Nat)
   | lastAttemptError (e : AttemptErr)
   deriving DecidableEq, Repr, Inhabited
 
@@ -46,28 +98,28 @@ inductive Res (α : Type)
   | err (e : ReqErr)
   deriving DecidableEq, Repr
 
-/-- `DbError::can_speculative_retry` (`error.rs:451-488`), arm by arm. -/
+/-- `DbError::can_speculative_retry` (`error.rs:451-488`), arm by arm (`{ .. }` = `..`). -/
 def DbErr.canSpeculativeRetry : DbErr → Bool
-  | .syntaxError | .invalid | .alreadyExists | .unauthorized | .protocolError => false
-  | .authenticationError | .other => false
-  | .functionFailure => false
+  | .syntaxError | .invalid | .alreadyExists .. | .unauthorized | .protocolError => false
+  | .authenticationError | .other _ => false
+  | .functionFailure .. => false
   | .configError | .truncateError => false
-  | .unavailable | .overloaded | .isBootstrapping | .readTimeout | .writeTimeout | .readFailure
-  | .writeFailure | .unprepared | .serverError | .rateLimitReached => true
+  | .unavailable .. | .overloaded | .isBootstrapping | .readTimeout .. | .writeTimeout .. | .readFailure ..
+  | .writeFailure .. | .unprepared .. | .serverError | .rateLimitReached .. => true
 
 /-- The `LastAttemptError(e)` arm of `can_be_ignored` (`speculative_execution.rs:128-152`). -/
 def AttemptErr.canBeIgnored : AttemptErr → Bool
-  | .serializationError | .cqlRequestSerialization | .bodyExtensionsParseError | .cqlResultParseError
-  | .cqlErrorParseError | .unexpectedResponse | .repreparedIdChanged | .repreparedIdMissingInBatch
+  | .serializationError | .cqlRequestSerialization _ | .bodyExtensionsParseError _ | .cqlResultParseError _
+  | .cqlErrorParseError _ | .unexpectedResponse _ | .repreparedIdChanged | .repreparedIdMissingInBatch
   | .nonfinishedPagingState => false
-  | .brokenConnectionError | .unableToAllocStreamId => true
-  | .dbError e => e.canSpeculativeRetry
+  | .brokenConnectionError _ | .unableToAllocStreamId => true
+  | .dbError e _ => e.canSpeculativeRetry
 
 /-- The `Err(e)` arm of `can_be_ignored` (`speculative_execution.rs:115-153`). -/
 def ReqErr.canBeIgnored : ReqErr → Bool
   | .emptyPlan => false
-  | .requestTimeout => false
-  | .connectionPoolError => true
+  | .requestTimeout _ => false
+  | .connectionPoolError _ => true
   | .lastAttemptError e => e.canBeIgnored
 
 /-- `can_be_ignored` (`speculative_execution.rs:108-155`). -/
@@ -97,8 +149,8 @@ structure St (α τ : Type) where
   handed : List (Nat × τ)
   /-- attempts currently on the wire: `(fiber, target)`. -/
   attempts : List (Nat × τ)
-  /-- `self.request_timeout.is_some()` (`execution.rs:486-487`): the runner is wrapped in `tokio::time::timeout`. -/
-  hasDeadline : Bool
+  /-- `self.request_timeout` in ms (`execution.rs:486-487`): if set, the runner is wrapped in `tokio::time::timeout`. -/
+  deadlineMs : Option Nat
   /-- what the call (`runner` under the optional timeout) returned. -/
   returned : Option (Res α)
   deriving Repr
@@ -125,19 +177,19 @@ inductive Event (α : Type)
 
 /-- `execute` was entered for an idempotent request with a policy: `retries_remaining = max_retry_count`,
 one fiber pushed, timer armed (`:173-185`). -/
-def initSpec {α τ : Type} (maxRetry : Nat) (dl : Bool) (plan : List τ) : St α τ :=
+def initSpec {α τ : Type} (maxRetry : Nat) (dl : Option Nat) (plan : List τ) : St α τ :=
   { retriesRemaining := maxRetry, running := [0], sleepArmed := true, lastError := none, started := 1,
-    plan := plan, handed := [], attempts := [], hasDeadline := dl, returned := none }
+    plan := plan, handed := [], attempts := [], deadlineMs := dl, returned := none }
 
 /-- The `_ =>` arm of the gate (`execution.rs:462-482`): exactly one fiber, no timer;
 `.await.unwrap_or(Err(EmptyPlan))` is what `complete` does with `retriesRemaining = 0`. -/
-def initSingle {α τ : Type} (dl : Bool) (plan : List τ) : St α τ :=
+def initSingle {α τ : Type} (dl : Option Nat) (plan : List τ) : St α τ :=
   { retriesRemaining := 0, running := [0], sleepArmed := false, lastError := none, started := 1,
-    plan := plan, handed := [], attempts := [], hasDeadline := dl, returned := none }
+    plan := plan, handed := [], attempts := [], deadlineMs := dl, returned := none }
 
 /-- The idempotence gate (`execution.rs:418-420`):
 `Some((metrics, Some(speculative))) if self.is_idempotent` ⇒ the speculative machine, else one fiber. -/
-def init {α τ : Type} (idempotent : Bool) (policyMaxRetry : Option Nat) (dl : Bool) (plan : List τ) : St α τ :=
+def init {α τ : Type} (idempotent : Bool) (policyMaxRetry : Option Nat) (dl : Option Nat) (plan : List τ) : St α τ :=
   match policyMaxRetry with
   | some m => if idempotent then initSpec m dl plan else initSingle dl plan
   | none => initSingle dl plan
@@ -199,8 +251,9 @@ def step {α τ : Type} (s : St α τ) (e : Event α) : St α τ :=
           else checkDone { s with lastError := some r }
         | none => checkDone { s with retriesRemaining := 0 }
     | .deadline =>
-      if !s.hasDeadline then s
-      else { s with returned := some (.err .requestTimeout), running := [], attempts := [] }
+      match s.deadlineMs with
+      | none => s
+      | some ms => { s with returned := some (.err (.requestTimeout ms)), running := [], attempts := [] }
 
 def run {α τ : Type} (s : St α τ) (evs : List (Event α)) : St α τ := evs.foldl step s
 
@@ -228,7 +281,7 @@ def consumed {α τ : Type} (s : St α τ) : List (Event α) → List (Res α)
 
 /-- `e` is the client-side timeout taking effect in `s`. -/
 def deadlineBy {α τ : Type} (s : St α τ) : Event α → Bool
-  | .deadline => s.returned.isNone && s.hasDeadline
+  | .deadline => s.returned.isNone && s.deadlineMs.isSome
   | _ => false
 
 /-- The client-side timeout took effect somewhere in the schedule. -/
